@@ -3,6 +3,7 @@
 # 1. tests pass with the patch; demo fails with it and passes without it   2. each listed check is run with BOBOCEP_REPO=<scratch>
 SRC=$1; NAME=$2; shift 2
 W=${SEED_WT:-/var/tmp/wt-seedtest}
+export VERIF_EVIDENCE_DIR=/var/tmp/seed-evidence; mkdir -p $VERIF_EVIDENCE_DIR
 [ -d $W ] || git -C /repo worktree add --detach $W main -q
 cd $W && git checkout -q --detach main && git reset -q --hard && git clean -qfd
 DEMO=$(ls $SRC/demo.py $SRC/test_demo.py 2>/dev/null | head -1)
